@@ -23,9 +23,9 @@ def opDistance (K : Type) [ScalarT K] [Wire K] (op : String) : P String := do
   | "mahal" => do
       finish
       return "ok " ++ renderArr (mahalanobis L).toArray
-  | "mahaldist" => do
+  | "mahalquad" => do
       let x := Vec.ofArray (← arr K d) d; let y := Vec.ofArray (← arr K d) d; finish
-      return "ok " ++ Wire.render (mahalDistance (mahalanobis L).memo x y)
+      return "ok " ++ Wire.render (quadForm (mahalanobis L).memo (vsub y x))
   | "embdist" => do
       let x := Vec.ofArray (← arr K d) d; let y := Vec.ofArray (← arr K d) d; finish
       return "ok " ++ Wire.render (euclid (transform L x) (transform L y))
@@ -34,7 +34,7 @@ def opDistance (K : Type) [ScalarT K] [Wire K] (op : String) : P String := do
 def dispatch : P String := do
   let op ← next
   match op with
-  | "dist" | "score" | "metric" | "transform" | "mahal" | "mahaldist" | "embdist" =>
+  | "dist" | "score" | "metric" | "transform" | "mahal" | "mahalquad" | "embdist" =>
       opDistance Float op
   | _ => throw s!"unknown op {op}"
 
